@@ -12,6 +12,8 @@ RULE = ("sources profile (pipes/eventfds, timers, signals, tasks; 1-100 descript
 ASSUME = ["no poll failures are injected: the 'genuine polling failure' exit is not exercised", "kernel pipe/epoll/signalfd/timerfd semantics",
           "timers are only bounded from above", "vf/model_events.py", "VERIF_SEED"]
 
+KNOWN = {"task_queued_at_quit": "C03/known:task-queued-at-loop-stop-never-runs"}
+
 
 def run(tier):
     res = fw.Result("C03", tier)
@@ -55,12 +57,17 @@ def run(tier):
             c.sc, c.profile, c.mode, c.seed = sc, "fd_error", m, seed * 1000 + k
             cases.append(c)
 
+    for k in range(2):
+        c = cc.Case()
+        c.sc, c.profile, c.mode, c.seed = gen.gen_task_queued_at_quit(seed * 10 + k), "task_queued_at_quit", ("loop" if k else "dispatch"), seed * 10 + k
+        cases.append(c)
+
     def oracle(case):
         return model_events.check_c03(case, stats, conservation=(case.profile in ("sources", "shared_signal", "fd_error")))
 
     def relevant(case):
         return sum(1 for r in case.recs if r.k == "V" and r.slot != 0) >= 3
-    cc.run_checked(res, cases, "plain", oracle, relevant, "C03")
+    cc.run_checked(res, cases, "plain", oracle, relevant, "C03", known_class=KNOWN)
     # two-mode differential on the deterministic part
     ndiff = 0
     for a, b in pairs:
